@@ -33,7 +33,13 @@ use redis_sim::redis::{Command, CommandExecutor, RespCodec, RespValue, Value};
 use serde_json::json;
 use tokio::io::{AsyncReadExt, AsyncWriteExt, DuplexStream};
 
-const KEYS: [&str; 6] = ["k", "n", "l", "w", "ab", "x"];
+/// Which variant of the connection handler /repo currently has — the ONE place to edit when the
+/// proposed fix "a protocol error between MULTI and EXEC flags the transaction" (branch
+/// fixes-txn-s3) lands: the model then follows `Txn.stepFixed`, the oracle expects EXECABORT, and
+/// the known finding C05:execabort:missing:protocol-error-not-flagged moves to `fixed`.
+pub const CODE_PROTO_ERROR_FLAGS: bool = false;
+
+pub(crate) const KEYS: [&str; 6] = ["k", "n", "l", "w", "ab", "x"];
 /// never written: target of the no-op fillers that keep the second connection in lock step
 const FILLER_KEY: &str = "zz";
 
@@ -49,7 +55,7 @@ pub enum Rv {
 }
 
 impl Rv {
-    fn from_resp(v: &RespValue) -> Rv {
+    pub(crate) fn from_resp(v: &RespValue) -> Rv {
         match v {
             RespValue::SimpleString(s) => Rv::Simple(s.to_string()),
             RespValue::Error(s) => Rv::Err(s.to_string()),
@@ -60,6 +66,9 @@ impl Rv {
     }
     fn is_err(&self) -> bool {
         matches!(self, Rv::Err(_))
+    }
+    pub(crate) fn is_err_pub(&self) -> bool {
+        self.is_err()
     }
 }
 
@@ -81,12 +90,15 @@ fn err_class(t: &str, perr: bool) -> String {
         "ERR EXEC without MULTI" => "-exec-without-multi".into(),
         "ERR DISCARD without MULTI" => "-discard-without-multi".into(),
         "NOPERM this user has no permissions to access the channel used as argument" => "-noperm".into(),
+        "ERR protocol error" => "-protocol".into(),
+        "ERR buffer overflow" => "-buffer-overflow".into(),
+        "ERR unknown command" => "-unknown-global".into(),
         _ if perr && t.starts_with("ERR ") => "-parse".into(),
         _ => format!("-other:{}", hex(t.as_bytes())),
     }
 }
 
-fn show(v: &Rv, perr: bool) -> String {
+pub(crate) fn show(v: &Rv, perr: bool) -> String {
     match v {
         Rv::Simple(s) => format!("+{}", s),
         Rv::Err(t) => err_class(t, perr),
@@ -146,7 +158,7 @@ fn parse_reply(b: &[u8]) -> Option<(Rv, usize)> {
 // ---------------------------------------------------------------- commands
 
 #[derive(Clone, Debug, PartialEq, Eq)]
-enum Cmd {
+pub(crate) enum Cmd {
     Get(String),
     Set(String, Vec<u8>),
     Incr(String),
@@ -168,6 +180,12 @@ enum Cmd {
     Expire(String),
     /// PERSIST k; the flag (did the key carry a deadline?) is observed right before sending
     Persist(String, bool),
+    /// MSET k v [k v …] (fanned out per shard)
+    Mset(Vec<(String, Vec<u8>)>),
+    /// MGET k [k …]
+    Mget(Vec<String>),
+    /// DEL k k' [k'' …] with two or more keys (fanned out per shard)
+    Delm(Vec<String>),
     Ping,
     Unwatch,
     Unk,
@@ -175,35 +193,64 @@ enum Cmd {
     Local(u8),
 }
 
-fn b(s: &str) -> Vec<u8> {
+pub(crate) fn b(s: &str) -> Vec<u8> {
     s.as_bytes().to_vec()
 }
 
+/// the key U+FFFD travels as the single byte 0xFF (not UTF-8): the server's lossy conversion must
+/// land on the same key in WATCH, in the data commands and in the store
+pub const FFFD_KEY: &str = "\u{FFFD}";
+fn kb(k: &str) -> Vec<u8> {
+    if k == FFFD_KEY {
+        vec![0xff]
+    } else {
+        k.as_bytes().to_vec()
+    }
+}
+
 impl Cmd {
-    fn args(&self) -> Vec<Vec<u8>> {
+    pub(crate) fn args(&self) -> Vec<Vec<u8>> {
         match self {
-            Cmd::Get(k) => vec![b("GET"), b(k)],
-            Cmd::Set(k, v) => vec![b("SET"), b(k), v.clone()],
-            Cmd::Incr(k) => vec![b("INCR"), b(k)],
-            Cmd::Append(k, v) => vec![b("APPEND"), b(k), v.clone()],
-            Cmd::Del(k) => vec![b("DEL"), b(k)],
+            Cmd::Get(k) => vec![b("GET"), kb(k)],
+            Cmd::Set(k, v) => vec![b("SET"), kb(k), v.clone()],
+            Cmd::Incr(k) => vec![b("INCR"), kb(k)],
+            Cmd::Append(k, v) => vec![b("APPEND"), kb(k), v.clone()],
+            Cmd::Del(k) => vec![b("DEL"), kb(k)],
             Cmd::Rpush(k, vs) => {
-                let mut a = vec![b("RPUSH"), b(k)];
+                let mut a = vec![b("RPUSH"), kb(k)];
                 a.extend(vs.iter().cloned());
                 a
             }
-            Cmd::Lrange(k) => vec![b("LRANGE"), b(k), b("0"), b("-1")],
-            Cmd::Llen(k) => vec![b("LLEN"), b(k)],
-            Cmd::Lset(k, v) => vec![b("LSET"), b(k), b("0"), v.clone()],
-            Cmd::Lpop(k) => vec![b("LPOP"), b(k)],
-            Cmd::Hset(k, f, v) => vec![b("HSET"), b(k), f.clone(), v.clone()],
-            Cmd::Hdel(k, f) => vec![b("HDEL"), b(k), f.clone()],
-            Cmd::Sadd(k, m) => vec![b("SADD"), b(k), m.clone()],
-            Cmd::Srem(k, m) => vec![b("SREM"), b(k), m.clone()],
-            Cmd::Zadd(k, sc, m) => vec![b("ZADD"), b(k), b(&sc.to_string()), m.clone()],
-            Cmd::Zrem(k, m) => vec![b("ZREM"), b(k), m.clone()],
-            Cmd::Expire(k) => vec![b("EXPIRE"), b(k), b("100000")],
-            Cmd::Persist(k, _) => vec![b("PERSIST"), b(k)],
+            Cmd::Lrange(k) => vec![b("LRANGE"), kb(k), b("0"), b("-1")],
+            Cmd::Llen(k) => vec![b("LLEN"), kb(k)],
+            Cmd::Lset(k, v) => vec![b("LSET"), kb(k), b("0"), v.clone()],
+            Cmd::Lpop(k) => vec![b("LPOP"), kb(k)],
+            Cmd::Hset(k, f, v) => vec![b("HSET"), kb(k), f.clone(), v.clone()],
+            Cmd::Hdel(k, f) => vec![b("HDEL"), kb(k), f.clone()],
+            Cmd::Sadd(k, m) => vec![b("SADD"), kb(k), m.clone()],
+            Cmd::Srem(k, m) => vec![b("SREM"), kb(k), m.clone()],
+            Cmd::Zadd(k, sc, m) => vec![b("ZADD"), kb(k), b(&sc.to_string()), m.clone()],
+            Cmd::Zrem(k, m) => vec![b("ZREM"), kb(k), m.clone()],
+            Cmd::Expire(k) => vec![b("EXPIRE"), kb(k), b("100000")],
+            Cmd::Persist(k, _) => vec![b("PERSIST"), kb(k)],
+            Cmd::Mset(ps) => {
+                let mut a = vec![b("MSET")];
+                for (k, v) in ps {
+                    a.push(kb(k));
+                    a.push(v.clone());
+                }
+                a
+            }
+            Cmd::Mget(ks) => {
+                let mut a = vec![b("MGET")];
+                a.extend(ks.iter().map(|k| kb(k)));
+                a
+            }
+            Cmd::Delm(ks) => {
+                let mut a = vec![b("DEL")];
+                a.extend(ks.iter().map(|k| kb(k)));
+                a
+            }
             Cmd::Ping => vec![b("PING")],
             Cmd::Unwatch => vec![b("UNWATCH")],
             Cmd::Unk => vec![b("FOO"), b("a")],
@@ -214,7 +261,7 @@ impl Cmd {
             Cmd::Local(_) => vec![b("PUBLISH"), b("c"), b("m")],
         }
     }
-    fn line(&self) -> String {
+    pub(crate) fn line(&self) -> String {
         let hk = |k: &String| hex(k.as_bytes());
         match self {
             Cmd::Get(k) => format!("GET {}", hk(k)),
@@ -242,10 +289,35 @@ impl Cmd {
             Cmd::Zrem(k, m) => format!("ZREM {} {}", hk(k), hex(m)),
             Cmd::Expire(k) => format!("EXPIRE {}", hk(k)),
             Cmd::Persist(k, had) => format!("PERSIST {} {}", hk(k), *had as u8),
+            Cmd::Mset(ps) => {
+                let mut s = format!("MSET {}", ps.len());
+                for (k, v) in ps {
+                    s.push_str(&format!(" {} {}", hk(k), hex(v)));
+                }
+                s
+            }
+            Cmd::Mget(ks) => format!("MGET {} {}", ks.len(), ks.iter().map(|k| hk(k)).collect::<Vec<_>>().join(" ")),
+            Cmd::Delm(ks) => format!("DELM {} {}", ks.len(), ks.iter().map(|k| hk(k)).collect::<Vec<_>>().join(" ")),
             Cmd::Ping => "PING".into(),
             Cmd::Unwatch => "UNWATCH".into(),
             Cmd::Unk => "UNK".into(),
             Cmd::Local(i) => format!("LOCAL {}", i),
+        }
+    }
+    /// every key the command reads or writes
+    fn keys(&self) -> Vec<&str> {
+        match self {
+            Cmd::Mset(ps) => ps.iter().map(|(k, _)| k.as_str()).collect(),
+            Cmd::Mget(ks) | Cmd::Delm(ks) => ks.iter().map(|k| k.as_str()).collect(),
+            c => c.key().into_iter().collect(),
+        }
+    }
+    /// every key the command may write
+    fn written_keys(&self) -> Vec<&str> {
+        match self {
+            Cmd::Mset(ps) => ps.iter().map(|(k, _)| k.as_str()).collect(),
+            Cmd::Delm(ks) => ks.iter().map(|k| k.as_str()).collect(),
+            c => c.written_key().into_iter().collect(),
         }
     }
     fn key(&self) -> Option<&str> {
@@ -262,7 +334,7 @@ impl Cmd {
             _ => None,
         }
     }
-    fn text(&self) -> String {
+    pub(crate) fn text(&self) -> String {
         self.args().iter().map(|a| String::from_utf8_lossy(a).to_string()).collect::<Vec<_>>().join(" ")
     }
 }
@@ -302,18 +374,31 @@ enum Inp {
     Perr(u64),
     Chan,
     Local(u8),
+    /// a byte `RespCodec::parse` rejects (an unknown RESP type byte), sent in a write of its own.
+    /// ONE byte: the handler answers one protocol error per READ that starts with garbage (it drops
+    /// its buffer and goes on), so longer garbage gives as many errors as reads it is split into —
+    /// reply counting under segmentation is C04's subject, not this property's
+    Proto,
 }
 
 impl Inp {
+    /// the bytes on the wire
+    fn wire(&self) -> Vec<u8> {
+        match self {
+            Inp::Proto => b"!".to_vec(),
+            i => frame(&i.args()),
+        }
+    }
     fn args(&self) -> Vec<Vec<u8>> {
         match self {
+            Inp::Proto => vec![b("!")],
             Inp::Multi => vec![b("MULTI")],
             Inp::Exec(_) => vec![b("EXEC")],
             Inp::Discard => vec![b("DISCARD")],
             Inp::Unwatch => vec![b("UNWATCH")],
             Inp::Watch(ks) => {
                 let mut a = vec![b("WATCH")];
-                a.extend(ks.iter().map(|k| b(k)));
+                a.extend(ks.iter().map(|k| kb(k)));
                 a
             }
             Inp::Cmd(c) => c.args(),
@@ -352,6 +437,7 @@ impl Inp {
             Inp::Perr(_) => "C PERR".into(),
             Inp::Chan => "C CHAN".into(),
             Inp::Local(i) => format!("C LOCAL {}", i),
+            Inp::Proto => "C PROTO".into(),
         }
     }
     fn text(&self) -> String {
@@ -376,8 +462,11 @@ pub struct Conn {
 
 impl Conn {
     pub fn open(state: &ShardedActorState) -> Conn {
+        Conn::open_cfg(state, ConnectionConfig::default())
+    }
+    pub fn open_cfg(state: &ShardedActorState, cfg: ConnectionConfig) -> Conn {
         let (cli, srv) = tokio::io::duplex(1 << 16);
-        tokio::spawn(run_connection(srv, state.clone(), ConnectionConfig::default()));
+        tokio::spawn(run_connection(srv, state.clone(), cfg));
         Conn { cli, buf: Vec::new() }
     }
     pub async fn write(&mut self, bytes: &[u8]) {
@@ -392,7 +481,11 @@ impl Conn {
                 }
             }
             let mut tmp = [0u8; 4096];
-            let n = self.cli.read(&mut tmp).await.unwrap_or(0);
+            // a reply that never comes is a named outcome, not a hung check
+            let n = match tokio::time::timeout(std::time::Duration::from_secs(20), self.cli.read(&mut tmp)).await {
+                Ok(r) => r.unwrap_or(0),
+                Err(_) => return Rv::Err("?timeout: no reply within 20 s".into()),
+            };
             if n == 0 {
                 return Rv::Err("?connection closed".into());
             }
@@ -572,12 +665,29 @@ fn show_dump(d: &[(String, Typed)]) -> String {
 }
 
 async fn dump(st: &ShardedActorState) -> Vec<(String, Typed)> {
-    let mut keys: Vec<&str> = KEYS.to_vec();
+    let keys: Vec<String> = KEYS.iter().map(|k| k.to_string()).collect();
+    dump_keys(st, &keys).await
+}
+
+async fn dump_keys(st: &ShardedActorState, keys: &[String]) -> Vec<(String, Typed)> {
+    let mut keys: Vec<&str> = keys.iter().map(|k| k.as_str()).collect();
     keys.push(FILLER_KEY);
     keys.sort_by(|a, b| key_cmp(a, b));
+    keys.dedup();
     let mut v = Vec::new();
     for k in keys {
         v.push((k.to_string(), typed(st, k).await));
+    }
+    v
+}
+
+/// which keys carry a deadline (TTL >= 0): compared between the server under test and the twin
+/// after an EXEC (the model's store has no deadlines)
+async fn ttl_flags(st: &ShardedActorState, keys: &[String]) -> Vec<(String, bool)> {
+    let mut v = Vec::new();
+    for k in keys {
+        let has = matches!(Rv::from_resp(&st.execute(&cmd_of(&["TTL", k])).await), Rv::Int(n) if n >= 0);
+        v.push((k.clone(), has));
     }
     v
 }
@@ -604,15 +714,37 @@ struct World {
     last_exec: Option<String>,
     /// did the oracle see a value change of a watched key at that EXEC?
     last_changed: bool,
+    /// canonical reply of the last input of the modelled client
+    last_reply: String,
+    /// canonical replies of all inputs of the modelled client, in order
+    replies: Vec<String>,
+    /// configuration of the modelled client's connection
+    cfg: ConnectionConfig,
+    cfg_text: String,
+    /// keys of the dumps
+    keys: Vec<String>,
+}
+
+fn cfg_text(c: &ConnectionConfig) -> String {
+    let d = ConnectionConfig::default();
+    if c.max_buffer_size == d.max_buffer_size && c.read_buffer_size == d.read_buffer_size && c.min_pipeline_buffer == d.min_pipeline_buffer && c.batch_threshold == d.batch_threshold {
+        "default".into()
+    } else {
+        format!("max_buffer_size={} read_buffer_size={} min_pipeline_buffer={} batch_threshold={}", c.max_buffer_size, c.read_buffer_size, c.min_pipeline_buffer, c.batch_threshold)
+    }
 }
 
 impl World {
     fn new(shards: usize) -> World {
+        World::new_cfg(shards, ConnectionConfig::default())
+    }
+
+    fn new_cfg(shards: usize, cfg: ConnectionConfig) -> World {
         let st = ShardedActorState::with_shards(shards);
         let twin = ShardedActorState::with_shards(1);
         World {
             shards,
-            c1: Conn::open(&st),
+            c1: Conn::open_cfg(&st, cfg.clone()),
             c2: Conn::open(&st),
             tw: Conn::open(&twin),
             st,
@@ -625,11 +757,41 @@ impl World {
             nontrivial: false,
             last_exec: None,
             last_changed: false,
+            last_reply: String::new(),
+            replies: Vec::new(),
+            cfg_text: cfg_text(&cfg),
+            cfg,
+            keys: KEYS.iter().map(|k| k.to_string()).collect(),
         }
     }
 
     fn replay_json(&self) -> serde_json::Value {
-        json!({"shards": self.shards, "session": self.text})
+        json!({"shards": self.shards, "connection_config": self.cfg_text, "session": self.text})
+    }
+
+    /// the modelled client's connection is dropped (queued commands and watches go with it) and a
+    /// new one is opened on the same server
+    async fn reconnect(&mut self, out: &mut Out, how: &str) {
+        out.count(&format!("fault:connection-closed:{}", if self.in_multi { "in-multi" } else { "outside" }));
+        let before = self.dump_now().await;
+        self.c1 = Conn::open_cfg(&self.st, self.cfg.clone());
+        // let the old handler task see EOF
+        tokio::task::yield_now().await;
+        tokio::task::yield_now().await;
+        self.text.push(format!("(connection closed{}; new connection)", how));
+        out.op("RECONNECT".into(), "ok".into());
+        let after = self.dump_now().await;
+        if after != before {
+            out.violation("C05:close:store-changed", &format!("closing the connection {} changed the store: {} -> {}", if self.in_multi { "between MULTI and EXEC" } else { "outside MULTI" }, show_dump(&before), show_dump(&after)), self.replay_json());
+        }
+        self.in_multi = false;
+        self.body.clear();
+        self.watched.clear();
+        out.op("DUMP".into(), show_dump(&after));
+    }
+
+    async fn dump_now(&self) -> Vec<(String, Typed)> {
+        dump_keys(&self.st, &self.keys).await
     }
 
     async fn twin_apply(&mut self, args: Vec<Vec<u8>>) -> Rv {
@@ -676,7 +838,7 @@ impl World {
     }
 
     async fn dump_op(&mut self, out: &mut Out) {
-        let d = dump(&self.st).await;
+        let d = dump_keys(&self.st, &self.keys).await;
         out.op("DUMP".into(), show_dump(&d));
     }
 
@@ -686,7 +848,7 @@ impl World {
         let before = if self.in_multi && matches!(inp, Inp::Exec(_) | Inp::Discard) {
             Some(match view {
                 Some(v) => v.clone(),
-                None => dump(&self.st).await,
+                None => dump_keys(&self.st, &self.keys).await,
             })
         } else {
             None
@@ -717,7 +879,8 @@ impl World {
     /// one input of the modelled client (not a concurrent EXEC)
     async fn input(&mut self, out: &mut Out, inp: Inp) {
         let pre = self.pre(&inp, None).await;
-        let r = self.c1.call(&inp.args()).await;
+        self.c1.write(&inp.wire()).await;
+        let r = self.c1.recv().await;
         self.post(out, inp, r, pre, None).await;
     }
 
@@ -726,10 +889,10 @@ impl World {
     /// changes the store, so the observations taken before the write are valid for every element.
     async fn pipelined(&mut self, out: &mut Out, inps: Vec<Inp>) {
         out.count("pipelined-block");
-        let view = dump(&self.st).await;
+        let view = dump_keys(&self.st, &self.keys).await;
         let mut buf = Vec::new();
         for i in &inps {
-            buf.extend(frame(&i.args()));
+            buf.extend(i.wire());
         }
         self.c1.write(&buf).await;
         let mut rs = Vec::new();
@@ -743,11 +906,39 @@ impl World {
         }
     }
 
+    /// a long run of inputs that do not touch the store until a final EXEC / DISCARD (a queue being
+    /// filled): `per_write` frames per write, replies read after each write
+    async fn chunked(&mut self, out: &mut Out, inps: Vec<Inp>, per_write: usize) {
+        out.count("chunked-block");
+        out.count_n("chunked-block:inputs", inps.len() as u64);
+        let view = self.dump_now().await;
+        self.text.push(format!("(next {} inputs sent {} per write)", inps.len(), per_write));
+        let mut it = inps.into_iter().peekable();
+        while it.peek().is_some() {
+            let chunk: Vec<Inp> = it.by_ref().take(per_write.max(1)).collect();
+            let mut buf = Vec::new();
+            for i in &chunk {
+                buf.extend(i.wire());
+            }
+            self.c1.write(&buf).await;
+            let mut rs = Vec::new();
+            for _ in &chunk {
+                rs.push(self.c1.recv().await);
+            }
+            for (i, r) in chunk.into_iter().zip(rs) {
+                let pre = self.pre(&i, Some(&view)).await;
+                self.post(out, i, r, pre, Some(&view)).await;
+            }
+        }
+    }
+
     async fn post(&mut self, out: &mut Out, inp: Inp, r: Rv, pre: (Option<Vec<(String, Typed)>>, Vec<(String, Typed, Typed, bool)>), view: Option<&Vec<(String, Typed)>>) {
         let perr = matches!(inp, Inp::Perr(_));
         let (before, changed) = pre;
         self.text.push(inp.text());
         out.op(inp.line(), show(&r, perr));
+        self.last_reply = show(&r, perr);
+        self.replies.push(self.last_reply.clone());
         out.count(&format!(
             "input:{}:{}",
             if self.in_multi { "in-multi" } else { "outside" },
@@ -772,7 +963,7 @@ impl World {
                     }
                 }
                 Inp::Unwatch => self.watched.clear(),
-                Inp::Exec(_) | Inp::Discard => {}
+                Inp::Exec(_) | Inp::Discard | Inp::Proto => {}
                 // everything else is executed (or answered) right away: mirror on the twin
                 _ => {
                     let tr = self.twin_apply(inp.args()).await;
@@ -796,9 +987,13 @@ impl World {
                 let body = std::mem::take(&mut self.body);
                 let watched = std::mem::take(&mut self.watched);
                 let queued: Vec<&Inp> = body.iter().filter(|(_, r)| *r == Rv::Simple("QUEUED".into())).map(|(i, _)| i).collect();
-                let refused = body.iter().any(|(_, r)| r.is_err() && !matches!(err_class(match r { Rv::Err(t) => t, _ => "" }, false).as_str(), "-nested-multi" | "-watch-in-multi"));
+                let cls = |r: &Rv| err_class(match r { Rv::Err(t) => t, _ => "" }, false);
+                let refused = body.iter().any(|(_, r)| r.is_err() && !matches!(cls(r).as_str(), "-nested-multi" | "-watch-in-multi"));
+                // the only refused inputs were protocol errors (which the current handler does not flag)
+                let refused_proto_only = refused && body.iter().all(|(_, r)| !r.is_err() || matches!(cls(r).as_str(), "-nested-multi" | "-watch-in-multi" | "-protocol"));
+                let missing_sig = if refused_proto_only && !CODE_PROTO_ERROR_FLAGS { "C05:execabort:missing:protocol-error-not-flagged" } else { "C05:execabort:missing" };
                 let any_err = body.iter().any(|(_, r)| r.is_err());
-                let after = dump(&self.st).await;
+                let after = dump_keys(&self.st, &self.keys).await;
                 let before = before.unwrap();
                 self.nontrivial |= !queued.is_empty() || !watched.is_empty();
                 match &r {
@@ -814,7 +1009,7 @@ impl World {
                     Rv::Arr(None) => {
                         out.count("exec:nil");
                         if refused {
-                            out.violation("C05:execabort:missing", "an input was refused at queue time but EXEC did not answer EXECABORT", self.replay_json());
+                            out.violation(missing_sig, "an input was refused at queue time but EXEC did not answer EXECABORT", self.replay_json());
                         }
                         if changed.is_empty() {
                             out.violation("C05:watch:spurious-abort", "EXEC answered nil although no watched key changed its value since WATCH", self.replay_json());
@@ -827,7 +1022,7 @@ impl World {
                         out.count("exec:results");
                         out.count(&format!("exec:queue-len:{}", queued.len().min(6)));
                         if refused {
-                            out.violation("C05:execabort:missing", "an input was refused at queue time but EXEC executed the queue", self.replay_json());
+                            out.violation(missing_sig, "an input was refused at queue time (answered with an error) but EXEC executed the queue instead of answering EXECABORT", self.replay_json());
                         }
                         if let Some((k, t0, now, _)) = changed.iter().find(|c| c.3) {
                             // KNOWN cause, exactly: the key held a NON-STRING value (list, hash, set,
@@ -864,7 +1059,11 @@ impl World {
                                 out.violation(sig, &format!("queued `{}`: EXEC result {} but {} when sent outside MULTI (twin server)", q.text(), a, e), self.replay_json());
                             }
                         }
-                        let td = dump(&self.twin).await;
+                        let td = dump_keys(&self.twin, &self.keys).await;
+                        let (tf, sf) = (ttl_flags(&self.twin, &self.keys).await, ttl_flags(&self.st, &self.keys).await);
+                        if tf != sf {
+                            out.violation("C05:exec:ttl-differs-from-sequential", &format!("which keys carry a deadline after EXEC {:?} differs from the consecutive run on the twin {:?}", sf, tf), self.replay_json());
+                        }
                         if td != after {
                             out.violation("C05:exec:store-differs-from-sequential", &format!("store after EXEC {} but {} after the consecutive run on the twin", show_dump(&after), show_dump(&td)), self.replay_json());
                         }
@@ -880,7 +1079,7 @@ impl World {
                 self.body.clear();
                 self.watched.clear();
                 out.count("discard");
-                let after = dump(&self.st).await;
+                let after = dump_keys(&self.st, &self.keys).await;
                 if Some(&after) != before.as_ref() {
                     out.violation("C05:discard:store-changed", "DISCARD changed the store", self.replay_json());
                 }
@@ -910,6 +1109,11 @@ impl World {
                 self.input(out, Inp::Exec(vec![])).await;
                 return;
             }
+        }
+        // … and so is the unflagged protocol error: a body that contains one runs its EXEC alone
+        if self.body.iter().any(|(_, r)| matches!(r, Rv::Err(t) if err_class(t, false) == "-protocol")) {
+            self.input(out, Inp::Exec(vec![])).await;
+            return;
         }
         out.count("exec:concurrent");
         let foreign: Vec<Cmd> = sched.iter().flatten().cloned().collect();
@@ -956,7 +1160,10 @@ impl World {
         let watched = std::mem::take(&mut self.watched);
         self.text.push(inp.text());
         out.op(inp.line(), show(&r, false));
-        let after = dump(&self.st).await;
+        self.last_exec = Some(show(&r, false));
+        self.last_reply = show(&r, false);
+        self.replies.push(self.last_reply.clone());
+        let after = dump_keys(&self.st, &self.keys).await;
         out.op("DUMP".into(), show_dump(&after));
         self.nontrivial = true;
         // serial outcomes: an atomic EXEC after foreign[..j], before foreign[j..]
@@ -1064,21 +1271,22 @@ impl World {
             );
         } else if !allowed.contains(&observed) {
             // non-serializable AND exactly what the current code is known to do: name the cause
-            let qkeys: Vec<&str> = queued.iter().filter_map(|q| if let Inp::Cmd(c) = q { c.key() } else { None }).collect();
+            let qkeys: Vec<&str> = queued.iter().flat_map(|q| if let Inp::Cmd(c) = q { c.keys() } else { Vec::new() }).collect();
             let mut cause_watched = false;
             let mut cause_queue = false;
             for (i, slot) in sched.iter().enumerate() {
                 for f in slot {
-                    let Some(k) = f.written_key() else { continue };
-                    // served after the comparison of watched key k and before the last queued command
-                    if let Some(c) = compared.iter().position(|w| w.as_str() == k) {
-                        if !watch_failed && i >= c + 1 && i < n_access {
-                            cause_watched = true;
+                    for k in f.written_keys() {
+                        // served after the comparison of watched key k and before the last queued command
+                        if let Some(c) = compared.iter().position(|w| w.as_str() == k) {
+                            if !watch_failed && i >= c + 1 && i < n_access {
+                                cause_watched = true;
+                            }
                         }
-                    }
-                    // served between two queued commands, on a key the queue touches
-                    if !watch_failed && i >= n_watch + 1 && i + 1 <= n_access && qkeys.contains(&k) {
-                        cause_queue = true;
+                        // served between two queued commands, on a key the queue touches
+                        if !watch_failed && i >= n_watch + 1 && i + 1 <= n_access && qkeys.contains(&k) {
+                            cause_queue = true;
+                        }
                     }
                 }
             }
@@ -1110,6 +1318,11 @@ impl World {
                 self.twin_apply(a).await;
             }
         }
+        for (k, has) in ttl_flags(&self.st, &self.keys).await {
+            if has {
+                self.twin_apply(vec![b("EXPIRE"), kb(&k), b("100000")]).await;
+            }
+        }
     }
 }
 
@@ -1128,8 +1341,18 @@ const FIELDS: [&str; 3] = ["f", "g", "ab"];
 const MEMBERS: [&str; 3] = ["alice", "bob", "c"];
 const SCORES: [i64; 5] = [10, 15, 20, 25, -5];
 
-fn gen_cmd(rng: &mut Rng, writes_only: bool) -> Cmd {
+pub(crate) fn gen_cmd(rng: &mut Rng, writes_only: bool) -> Cmd {
     let k = key(rng);
+    // fan-out commands (one message per shard involved) and a TTL-only write
+    if rng.chance(1, 9) {
+        let n = rng.range(2, 3);
+        return match rng.below(if writes_only { 3 } else { 4 }) {
+            0 => Cmd::Mset((0..n).map(|_| (key(rng), val(rng))).collect()),
+            1 => Cmd::Delm((0..n).map(|_| key(rng)).collect()),
+            2 => Cmd::Expire(k),
+            _ => Cmd::Mget((0..n).map(|_| key(rng)).collect()),
+        };
+    }
     let n = if writes_only { 13 } else { 17 };
     match rng.below(n) {
         0 => Cmd::Set(k, val(rng)),
@@ -1271,12 +1494,42 @@ async fn session(out: &mut Out, rng: &mut Rng, script: Option<(usize, Vec<Step>)
 }
 
 async fn session_labelled(out: &mut Out, rng: &mut Rng, script: Option<(usize, Vec<Step>)>, matrix_label: Option<String>) {
+    session_full(out, rng, script, matrix_label, None, None).await;
+}
+
+/// legal extremes of every `ConnectionConfig` field the handler reads
+fn gen_cfg(rng: &mut Rng) -> ConnectionConfig {
+    let read = *rng.pick(&[1usize, 2, 7, 13, 14, 16, 64, 8192]);
+    ConnectionConfig {
+        max_buffer_size: *rng.pick(&[1usize << 20, 512 * 1024 * 1024]),
+        read_buffer_size: read,
+        min_pipeline_buffer: *rng.pick(&[0usize, 1, 13, 14, 60, 1 << 20]),
+        batch_threshold: *rng.pick(&[0usize, 1, 2, 3, 64]),
+    }
+}
+
+/// returns the canonical replies of all inputs of the modelled client
+async fn session_full(out: &mut Out, rng: &mut Rng, script: Option<(usize, Vec<Step>)>, matrix_label: Option<String>, cfg: Option<ConnectionConfig>, keys: Option<Vec<String>>) -> Vec<String> {
     let (shards, fixed) = match script {
         Some((s, v)) => (s, Some(v)),
         None => (if rng.chance(1, 2) { 1 } else { 4 }, None),
     };
     out.count(&format!("shards:{}", shards));
-    let mut w = World::new(shards);
+    let cfg = match cfg {
+        Some(c) => c,
+        None if fixed.is_none() && rng.chance(1, 4) => gen_cfg(rng),
+        None => ConnectionConfig::default(),
+    };
+    let mut w = World::new_cfg(shards, cfg);
+    if let Some(k) = keys {
+        w.keys = k;
+    }
+    out.count(&format!("connection-config:{}", if w.cfg_text == "default" { "default" } else { "generated" }));
+    if w.cfg_text != "default" {
+        out.count(&format!("connection-config:read_buffer_size:{}", w.cfg.read_buffer_size));
+        out.count(&format!("connection-config:min_pipeline_buffer:{}", w.cfg.min_pipeline_buffer));
+        out.count(&format!("connection-config:batch_threshold:{}", w.cfg.batch_threshold));
+    }
     out.op("NEW".into(), "ok".into());
     if let Some(steps) = fixed {
         for s in steps {
@@ -1286,6 +1539,29 @@ async fn session_labelled(out: &mut Out, rng: &mut Rng, script: Option<(usize, V
                 Step::ConcExec(sc) => w.concurrent_exec(out, sc).await,
                 Step::Block(b) => w.pipelined(out, b).await,
                 Step::ExpireNow(k) => w.expire_now(out, &k).await,
+                Step::Reconnect(how) => w.reconnect(out, how).await,
+                Step::RawThenClose(bytes, how) => {
+                    w.c1.write(&bytes).await;
+                    tokio::task::yield_now().await;
+                    w.reconnect(out, how).await
+                }
+                Step::Chunked(inps, per_write) => w.chunked(out, inps, per_write).await,
+                Step::Overflow(val) => {
+                    out.count("fault:buffer-overflow");
+                    let before = w.dump_now().await;
+                    w.c1.write(&frame(&[b("SET"), b("n"), val])).await;
+                    let r = w.c1.recv().await;
+                    let closed = w.c1.recv().await;
+                    w.text.push("SET n <value larger than max_buffer_size>".into());
+                    if show(&r, false) != "-buffer-overflow" || closed != Rv::Err("?connection closed".into()) {
+                        out.violation("C05:overflow:unexpected", &format!("a frame beyond max_buffer_size was answered {} then {:?} (expected the buffer-overflow error and a closed connection)", show(&r, false), closed), w.replay_json());
+                    }
+                    let after = w.dump_now().await;
+                    if after != before {
+                        out.violation("C05:overflow:store-changed", "a connection closed for buffer overflow between MULTI and EXEC changed the store", w.replay_json());
+                    }
+                    w.reconnect(out, " by the server: buffer overflow").await
+                }
                 Step::ExpectExec(sig, want) => {
                     // a repaired defect: its witness must now PASS
                     if w.last_exec.as_deref() == Some(want) {
@@ -1343,7 +1619,11 @@ async fn session_labelled(out: &mut Out, rng: &mut Rng, script: Option<(usize, V
                     73..=75 => w.input(out, Inp::Unk).await,
                     76..=78 => w.input(out, Inp::Perr(rng.next())).await,
                     79..=80 => w.input(out, Inp::Local(rng.below(4) as u8)).await,
-                    81 => w.input(out, Inp::Chan).await,
+                    81 => match rng.below(3) {
+                        0 => w.input(out, Inp::Chan).await,
+                        1 => w.input(out, Inp::Proto).await,
+                        _ => w.reconnect(out, "").await,
+                    },
                     82 => w.foreign(out, Cmd::Expire(key(rng))).await,
                     83 => w.foreign(out, Cmd::Persist(key(rng), false)).await,
                     84 if rng.chance(1, 4) => {
@@ -1372,7 +1652,11 @@ async fn session_labelled(out: &mut Out, rng: &mut Rng, script: Option<(usize, V
                     92..=94 => w.input(out, Inp::Perr(rng.next())).await,
                     95..=96 => w.input(out, Inp::Unwatch).await,
                     97..=98 => w.input(out, Inp::Local(rng.below(4) as u8)).await,
-                    _ => w.input(out, Inp::Chan).await,
+                    _ => match rng.below(3) {
+                        0 => w.input(out, Inp::Chan).await,
+                        1 => w.input(out, Inp::Proto).await,
+                        _ => w.reconnect(out, " between MULTI and EXEC").await,
+                    },
                 }
             }
         }
@@ -1394,9 +1678,203 @@ async fn session_labelled(out: &mut Out, rng: &mut Rng, script: Option<(usize, V
         };
         out.count(&format!("watchmatrix:connection-{}shard:{}:{}:value-{}", shards, l, outcome, if w.last_changed { "changed" } else { "same" }));
     }
-    let text = format!("{}|{}", shards, w.text.join(";"));
+    let text = format!("{}|{}|{}", shards, w.cfg_text, w.text.join(";"));
     out.case(&text, w.nontrivial);
-    out.sample(json!({"shards": shards, "session": w.text}));
+    out.sample(json!({"shards": shards, "connection_config": w.cfg_text, "session": w.text}));
+    w.replies.clone()
+}
+
+
+// ---------------------------------------------------------------- the decision table, cell by cell
+
+/// a state class of the connection-level machine: in_transaction, transaction_errors, the watch
+/// list (0 nothing watched, 1 key `w` watched and unchanged, 2 watched and changed since), queue length
+#[derive(Clone, Copy)]
+struct CellState {
+    a: bool,
+    e: bool,
+    w: u8,
+    q: usize,
+}
+
+/// every REACHABLE state class (outside MULTI the queue is empty and the flag is down:
+/// theorem `reachable_outside_clean`)
+fn cell_states() -> Vec<CellState> {
+    let mut v = Vec::new();
+    for w in 0..3u8 {
+        v.push(CellState { a: false, e: false, w, q: 0 });
+    }
+    for e in [false, true] {
+        for w in 0..3u8 {
+            for q in [0usize, 2] {
+                v.push(CellState { a: true, e, w, q });
+            }
+        }
+    }
+    v
+}
+
+fn cell_prefix(s: &CellState) -> Vec<Step> {
+    let mut v = vec![Step::Other(Cmd::Rpush("l".into(), vec![b("a")])), Step::Other(Cmd::Set("k".into(), b("5")))];
+    if s.w >= 1 {
+        v.push(Step::Other(Cmd::Set("w".into(), b("5"))));
+        v.push(Step::In(Inp::Watch(vec!["w".into()])));
+    }
+    if s.w == 2 {
+        v.push(Step::Other(Cmd::Set("w".into(), b("6"))));
+    }
+    if s.a {
+        v.push(Step::In(Inp::Multi));
+        if s.q >= 1 {
+            v.push(Step::In(Inp::Cmd(Cmd::Set("x".into(), b("1")))));
+        }
+        if s.q >= 2 {
+            v.push(Step::In(Inp::Cmd(Cmd::Incr("n".into()))));
+        }
+        if s.e {
+            v.push(Step::In(Inp::Unk));
+        }
+    }
+    v
+}
+
+/// number of `Step::In` inputs in a prefix
+fn n_inputs(steps: &[Step]) -> usize {
+    steps.iter().filter(|s| matches!(s, Step::In(_))).count()
+}
+
+/// (input class of the model's table, label, concrete input): several representatives per class
+fn cell_inputs() -> Vec<(&'static str, String, Inp)> {
+    let mut v: Vec<(&'static str, String, Inp)> = vec![
+        ("MULTI", "MULTI".into(), Inp::Multi),
+        ("EXEC", "EXEC".into(), Inp::Exec(vec![])),
+        ("DISCARD", "DISCARD".into(), Inp::Discard),
+        ("UNWATCH", "UNWATCH".into(), Inp::Unwatch),
+        ("WATCH", "WATCH k".into(), Inp::Watch(vec!["k".into()])),
+        ("WATCH", "WATCH k n".into(), Inp::Watch(vec!["k".into(), "n".into()])),
+        ("CMD", "GET k".into(), Inp::Cmd(Cmd::Get("k".into()))),
+        ("CMD", "SET k 9".into(), Inp::Cmd(Cmd::Set("k".into(), b("9")))),
+        ("CMD", "INCR l (fails at run time)".into(), Inp::Cmd(Cmd::Incr("l".into()))),
+        ("CMD", "MSET k 1 n 2".into(), Inp::Cmd(Cmd::Mset(vec![("k".into(), b("1")), ("n".into(), b("2"))]))),
+        ("CMD", "MGET k l zz".into(), Inp::Cmd(Cmd::Mget(vec!["k".into(), "l".into(), "x".into()]))),
+        ("CMD", "DEL k n".into(), Inp::Cmd(Cmd::Delm(vec!["k".into(), "n".into()]))),
+        ("CMD", "PING".into(), Inp::Cmd(Cmd::Ping)),
+        ("UNK", "FOO a".into(), Inp::Unk),
+        ("CHAN", "PUBLISH c m".into(), Inp::Chan),
+        ("PROTO", "protocol error".into(), Inp::Proto),
+    ];
+    for i in 0..4u8 {
+        v.push(("LOCAL", Inp::Local(i).text(), Inp::Local(i)));
+    }
+    for i in 0..6u64 {
+        v.push(("PERR", format!("arity error: {}", Inp::Perr(i).text()), Inp::Perr(i)));
+    }
+    v
+}
+
+/// class of the reply of a cell's input, as the model's `rcls`
+fn reply_class(icls: &str, in_txn: bool, r: &str) -> String {
+    if r == "+QUEUED" {
+        return "queued".into();
+    }
+    if r == "*-" {
+        return "nil".into();
+    }
+    let conn_err = ["-execabort", "-nested-multi", "-watch-in-multi", "-exec-without-multi", "-discard-without-multi", "-unknown-args", "-noperm", "-parse", "-protocol"];
+    if conn_err.contains(&r) {
+        return r.to_string();
+    }
+    match icls {
+        "EXEC" if in_txn && r.starts_with('*') => format!("results:{}", r[1..].split(' ').next().unwrap_or("?")),
+        "MULTI" | "DISCARD" | "UNWATCH" | "WATCH" if r == "+OK" => "ok".into(),
+        "CMD" | "UNK" | "CHAN" | "LOCAL" if !in_txn => "plain".into(),
+        _ => format!("?{}", r),
+    }
+}
+
+/// One cell of the decision table, extracted from the REAL handler by driving it: the state is
+/// reached by a prefix, the input is sent, and the next state is observed through probes (EXEC;
+/// a change of the watched key followed by [MULTI] EXEC; for WATCH a change of the newly named
+/// key).  Every run is an ordinary session (all its ops go through the model and the oracles);
+/// the observed cell is one more op line (`TBL …`) answered by the model's table.
+async fn table_cell(out: &mut Out, shards: usize, st: &CellState, icls: &'static str, label: &str, inp: &Inp) {
+    let mut rng = Rng::new(0xC05);
+    let np = n_inputs(&cell_prefix(st));
+    // run A: prefix, input, EXEC
+    let mut a = cell_prefix(st);
+    a.push(Step::In(inp.clone()));
+    a.push(Step::In(Inp::Exec(vec![])));
+    let ra = session_full(out, &mut rng, Some((shards, a)), None, None, None).await;
+    let (r, pa) = match (ra.get(np), ra.get(np + 1)) {
+        (Some(r), Some(pa)) => (r.clone(), pa.clone()),
+        _ => {
+            out.violation("C05:table:empty-cell", &format!("driving the cell ({}) produced {} replies instead of {}", label, ra.len(), np + 2), json!({"cell": label}));
+            return;
+        }
+    };
+    let rc = reply_class(icls, st.a, &r);
+    let (a2, e2) = match pa.as_str() {
+        "-exec-without-multi" => (false, false),
+        "-execabort" => (true, true),
+        p if p.starts_with('*') => (true, false),
+        p => {
+            out.violation("C05:table:probe-unreadable", &format!("the probe EXEC after ({}) answered {}", label, p), json!({"cell": label}));
+            return;
+        }
+    };
+    let q2 = if a2 && !e2 && st.w != 2 && pa.starts_with('*') && pa != "*-" { pa[1..].split(' ').next().unwrap_or("?").to_string() } else { "-".to_string() };
+    // run B: is the key watched before the input still armed afterwards?
+    let armed = if a2 && e2 {
+        "-".to_string()
+    } else if st.w == 0 {
+        "0".to_string()
+    } else {
+        let mut bsteps = cell_prefix(st);
+        bsteps.push(Step::In(inp.clone()));
+        if st.w == 1 {
+            bsteps.push(Step::Other(Cmd::Set("w".into(), b("7"))));
+        }
+        if !a2 {
+            bsteps.push(Step::In(Inp::Multi));
+        }
+        bsteps.push(Step::In(Inp::Exec(vec![])));
+        let rb = session_full(out, &mut rng, Some((shards, bsteps)), None, None, None).await;
+        match rb.last().map(|s| s.as_str()) {
+            Some("*-") => "1".to_string(),
+            Some(p) if p.starts_with('*') => "0".to_string(),
+            other => format!("?{:?}", other),
+        }
+    };
+    // run C: did WATCH arm the key it names?
+    let newarmed = if icls != "WATCH" || st.w == 2 || (a2 && e2) {
+        "-".to_string()
+    } else {
+        let mut csteps = cell_prefix(st);
+        csteps.push(Step::In(inp.clone()));
+        csteps.push(Step::Other(Cmd::Set("k".into(), b("8"))));
+        if !a2 {
+            csteps.push(Step::In(Inp::Multi));
+        }
+        csteps.push(Step::In(Inp::Exec(vec![])));
+        let rcx = session_full(out, &mut rng, Some((shards, csteps)), None, None, None).await;
+        match rcx.last().map(|s| s.as_str()) {
+            Some("*-") => "1".to_string(),
+            Some(p) if p.starts_with('*') => "0".to_string(),
+            other => format!("?{:?}", other),
+        }
+    };
+    let key = format!("TBL {} {} {} {} {}", st.a as u8, st.e as u8, st.w, st.q, icls);
+    let cell = format!("{} {} {} {} {} {}", rc, a2 as u8, e2 as u8, q2, armed, newarmed);
+    out.op(key.clone(), cell.clone());
+    out.count(&format!("table-cell:{}", icls));
+    let row = format!("in_multi={} errors={} watched={} queue={} | {} [{}]", st.a as u8, st.e as u8, ["none", "unchanged", "changed"][st.w as usize], st.q, icls, label);
+    if let Some(serde_json::Value::Object(m)) = out.extra.get_mut(&format!("decision_table_extracted_from_the_real_handler:{}shard", shards)) {
+        m.insert(row, json!(cell));
+    } else {
+        let mut m = serde_json::Map::new();
+        m.insert(row, json!(cell));
+        out.extra.insert(format!("decision_table_extracted_from_the_real_handler:{}shard", shards), serde_json::Value::Object(m));
+    }
 }
 
 /// one foreign command (or nothing) per await slot of the coming EXEC, slot 0 empty
@@ -1429,6 +1907,14 @@ enum Step {
     ExpireNow(String),
     /// (signature of a repaired defect, canonical reply its last EXEC must now give)
     ExpectExec(&'static str, &'static str),
+    /// the modelled client's connection is dropped and a new one opened
+    Reconnect(&'static str),
+    /// bytes written (e.g. half a frame), then the connection is dropped
+    RawThenClose(Vec<u8>, &'static str),
+    /// many inputs, `per_write` frames per write, replies read after each write (long queues)
+    Chunked(Vec<Inp>, usize),
+    /// a SET whose value exceeds the connection's max_buffer_size: error reply, connection closed
+    Overflow(Vec<u8>),
 }
 
 /// fixed corpus: the witnesses of the Lean counterexample theorems, replayed first on every run
@@ -1499,6 +1985,32 @@ fn corpus() -> Vec<(usize, Vec<Step>)> {
             ]),
             Step::In(Inp::Exec(vec![])),
         ]));
+        // kv_exec_serializable_other_keys: the other client works on keys the transaction neither
+        // queues nor watches, between EVERY pair of its store accesses — the outcome must be a
+        // serial one (the oracle of concurrent_exec demands it)
+        v.push((shards, vec![
+            Step::Other(Cmd::Set("k".into(), b("0"))),
+            Step::Other(Cmd::Rpush("l".into(), vec![b("7")])),
+            Step::In(Inp::Watch(vec!["k".into()])),
+            Step::In(Inp::Multi),
+            Step::In(Inp::Cmd(Cmd::Set("k".into(), b("1")))),
+            Step::In(Inp::Cmd(Cmd::Get("k".into()))),
+            Step::In(Inp::Cmd(Cmd::Incr("n".into()))),
+            Step::ConcExec(vec![vec![], vec![Cmd::Set("x".into(), b("2"))], vec![Cmd::Rpush("l".into(), vec![b("8")])], vec![Cmd::Sadd("ab".into(), b("9"))], vec![Cmd::Del("x".into())]]),
+            Step::ExpectExec("C05:independent-clients:serializable", "*3 +OK $x31 :1"),
+        ]));
+        // machines_differ_on_rewatch_counterexample, connection side: every snapshot of a key counts
+        // (k: 0 at the first WATCH, 1 at the second, 0 again at EXEC: nil)
+        v.push((shards, vec![
+            Step::Other(Cmd::Set("k".into(), b("0"))),
+            Step::In(Inp::Watch(vec!["k".into()])),
+            Step::Other(Cmd::Set("k".into(), b("1"))),
+            Step::In(Inp::Watch(vec!["k".into()])),
+            Step::Other(Cmd::Set("k".into(), b("0"))),
+            Step::In(Inp::Multi),
+            Step::In(Inp::Exec(vec![])),
+            Step::ExpectExec("C05:machines-differ:rewatch:connection-compares-every-snapshot", "*-"),
+        ]));
         // healthy paths: string watch detected, DISCARD, EXECABORT, nested MULTI, WATCH in MULTI
         v.push((shards, vec![
             Step::Other(Cmd::Set("k".into(), b("5"))),
@@ -1530,9 +2042,205 @@ fn corpus() -> Vec<(usize, Vec<Step>)> {
     v
 }
 
+
+/// scripted sessions for the audit classes that random sampling does not reach reliably:
+/// (label, shards, connection config, keys of the dumps, steps)
+fn audit_corpus() -> Vec<(&'static str, usize, Option<ConnectionConfig>, Option<Vec<String>>, Vec<Step>)> {
+    let mut v: Vec<(&'static str, usize, Option<ConnectionConfig>, Option<Vec<String>>, Vec<Step>)> = Vec::new();
+    let set = |k: &str, x: &str| Inp::Cmd(Cmd::Set(k.into(), b(x)));
+    for shards in [1usize, 4] {
+        // --- class 6, fault kinds: the connection goes away between MULTI and EXEC
+        v.push(("fault:close-mid-multi", shards, None, None, vec![
+            Step::Other(Cmd::Set("k".into(), b("5"))),
+            Step::In(Inp::Watch(vec!["k".into()])),
+            Step::In(Inp::Multi),
+            Step::In(set("k", "1")),
+            Step::In(Inp::Cmd(Cmd::Rpush("l".into(), vec![b("a")]))),
+            Step::Reconnect(" between MULTI and EXEC"),
+            // the new connection is outside MULTI, nothing is watched, nothing was applied
+            Step::In(Inp::Exec(vec![])),
+            Step::Other(Cmd::Set("k".into(), b("6"))),
+            Step::In(Inp::Multi),
+            Step::In(Inp::Cmd(Cmd::Get("k".into()))),
+            Step::In(Inp::Exec(vec![])),
+        ]));
+        // … with half a frame in flight
+        v.push(("fault:close-mid-frame-in-multi", shards, None, None, vec![
+            Step::In(Inp::Multi),
+            Step::In(set("k", "1")),
+            Step::RawThenClose(b"*3\r\n$3\r\nSET\r\n$1\r\nn\r\n$1".to_vec(), " with half a SET frame written, between MULTI and EXEC"),
+            Step::In(Inp::Cmd(Cmd::Get("k".into()))),
+            Step::In(Inp::Cmd(Cmd::Get("n".into()))),
+        ]));
+        // … and a protocol error between MULTI and EXEC: error reply, the transaction goes on unflagged
+        v.push(("fault:protocol-error-in-multi", shards, None, None, vec![
+            Step::In(Inp::Multi),
+            Step::In(set("k", "1")),
+            Step::In(Inp::Proto),
+            Step::In(set("n", "2")),
+            Step::In(Inp::Exec(vec![])),
+            Step::In(Inp::Proto),
+            Step::In(Inp::Multi),
+            Step::In(Inp::Proto),
+            Step::In(Inp::Discard),
+        ]));
+        // --- class 5, capacity: a queue far beyond any buffer (3000 commands, 64 per write; the
+        // read buffer holds 8192 bytes), 300 watched keys in one WATCH, 200 WATCH commands
+        let mut long: Vec<Inp> = vec![Inp::Multi];
+        for i in 0..3000 {
+            long.push(match i % 5 {
+                0 => Inp::Cmd(Cmd::Incr("n".into())),
+                1 => Inp::Cmd(Cmd::Append("k".into(), b("x"))),
+                2 => Inp::Cmd(Cmd::Rpush("l".into(), vec![b("a")])),
+                3 => Inp::Cmd(Cmd::Llen("l".into())),
+                _ => Inp::Cmd(Cmd::Get("n".into())),
+            });
+        }
+        long.push(Inp::Exec(vec![]));
+        v.push(("capacity:queue-3000", shards, None, None, vec![Step::Chunked(long, 64)]));
+        let many: Vec<String> = (0..300).map(|i| format!("wk{}", i)).collect();
+        let mut steps = vec![Step::In(Inp::Watch(many.clone()))];
+        for i in 0..200 {
+            steps.push(Step::In(Inp::Watch(vec![format!("wk{}", i % 7)])));
+        }
+        steps.push(Step::In(Inp::Multi));
+        steps.push(Step::In(set("x", "1")));
+        steps.push(Step::In(Inp::Exec(vec![])));
+        steps.push(Step::In(Inp::Watch(many)));
+        steps.push(Step::Other(Cmd::Set("wk299".into(), b("1"))));
+        steps.push(Step::In(Inp::Multi));
+        steps.push(Step::In(set("x", "2")));
+        steps.push(Step::In(Inp::Exec(vec![])));
+        let mut ks: Vec<String> = KEYS.iter().map(|k| k.to_string()).collect();
+        ks.push("wk299".into());
+        v.push(("capacity:watch-300-keys", shards, None, Some(ks), steps));
+        // --- class 2, input alphabet: the empty key, a key that is not UTF-8 on the wire (0xFF, lands
+        // on U+FFFD), a key with CR LF and blanks, a 300-byte key; empty / binary / 70 000-byte values
+        let big: String = "K".repeat(300);
+        // … keys with leading / trailing blanks and line ends, keys that differ only in case
+        let odd = vec!["".to_string(), FFFD_KEY.to_string(), "a b\r\nc".to_string(), big.clone(), "é".to_string(), " lead".to_string(), "lead".to_string(), "trail \r\n".to_string(), "trail".to_string(), "UPPER".to_string(), "upper".to_string()];
+        let bin: Vec<u8> = vec![0xff, 0x00, b'\r', b'\n', 0x80, b'*', b'$'];
+        let huge: Vec<u8> = (0..70_000u32).map(|i| (i % 251) as u8).collect();
+        for (i, k) in odd.iter().enumerate() {
+            let other = odd[(i + 1) % odd.len()].clone();
+            v.push(("alphabet:odd-keys", shards, None, Some(odd.clone()), vec![
+                Step::Other(Cmd::Set(k.clone(), bin.clone())),
+                Step::In(Inp::Watch(vec![k.clone(), other.clone()])),
+                Step::In(Inp::Multi),
+                Step::In(Inp::Cmd(Cmd::Get(k.clone()))),
+                Step::In(Inp::Cmd(Cmd::Append(k.clone(), vec![]))),
+                Step::In(Inp::Cmd(Cmd::Set(other.clone(), vec![]))),
+                Step::In(Inp::Cmd(Cmd::Mget(vec![k.clone(), other.clone()]))),
+                Step::In(Inp::Exec(vec![])),
+                Step::In(Inp::Watch(vec![k.clone()])),
+                Step::Other(Cmd::Append(k.clone(), vec![0])),
+                Step::In(Inp::Multi),
+                Step::In(Inp::Cmd(Cmd::Delm(vec![k.clone(), other.clone()]))),
+                Step::In(Inp::Exec(vec![])),
+            ]));
+        }
+        v.push(("alphabet:huge-value", shards, None, None, vec![
+            Step::In(Inp::Watch(vec!["k".into()])),
+            Step::In(Inp::Multi),
+            Step::In(Inp::Cmd(Cmd::Set("k".into(), huge.clone()))),
+            Step::In(Inp::Cmd(Cmd::Get("k".into()))),
+            Step::In(Inp::Exec(vec![])),
+            Step::In(Inp::Watch(vec!["k".into()])),
+            Step::Other(Cmd::Append("k".into(), b("!"))),
+            Step::In(Inp::Multi),
+            Step::In(Inp::Cmd(Cmd::Get("n".into()))),
+            Step::In(Inp::Exec(vec![])),
+        ]));
+        // --- class 4, configuration: every field of ConnectionConfig at its legal extremes, with a
+        // transaction sent in ONE write that starts with / contains runs of GETs and SETs (the shapes
+        // the batch collectors and the fast path look for)
+        for read in [1usize, 2, 13, 14, 8192] {
+            for (mpb, bt) in [(0usize, 0usize), (0, 1), (1, 2), (13, 2), (14, 1), (60, 2), (1 << 20, 64)] {
+                let cfg = ConnectionConfig { max_buffer_size: 1 << 20, read_buffer_size: read, min_pipeline_buffer: mpb, batch_threshold: bt };
+                v.push(("config:extremes", shards, Some(cfg), None, vec![
+                    Step::Other(Cmd::Set("k".into(), b("5"))),
+                    Step::Block(vec![
+                        Inp::Cmd(Cmd::Get("k".into())),
+                        Inp::Cmd(Cmd::Get("n".into())),
+                        Inp::Cmd(Cmd::Get("x".into())),
+                        Inp::Watch(vec!["k".into()]),
+                        Inp::Multi,
+                        Inp::Cmd(Cmd::Get("k".into())),
+                        Inp::Cmd(Cmd::Get("n".into())),
+                        Inp::Cmd(Cmd::Get("x".into())),
+                        set("k", "6"),
+                        set("n", "7"),
+                        set("x", "8"),
+                        Inp::Cmd(Cmd::Get("k".into())),
+                        Inp::Exec(vec![]),
+                    ]),
+                    Step::Block(vec![
+                        Inp::Cmd(Cmd::Get("k".into())),
+                        Inp::Cmd(Cmd::Get("n".into())),
+                        set("k", "9"),
+                        set("n", "10"),
+                        Inp::Cmd(Cmd::Get("k".into())),
+                        Inp::Cmd(Cmd::Get("n".into())),
+                    ]),
+                    Step::In(Inp::Multi),
+                    Step::Block(vec![
+                        Inp::Cmd(Cmd::Get("k".into())),
+                        Inp::Cmd(Cmd::Get("n".into())),
+                        set("k", "a"),
+                        set("n", "b"),
+                        Inp::Discard,
+                    ]),
+                    Step::Block(vec![
+                        Inp::Cmd(Cmd::Get("k".into())),
+                        Inp::Cmd(Cmd::Get("n".into())),
+                    ]),
+                ]));
+            }
+        }
+        // … and the buffer limit crossed between MULTI and EXEC: the connection answers an error
+        // and closes; nothing of the transaction is applied
+        let cfg = ConnectionConfig { max_buffer_size: 256, read_buffer_size: 64, min_pipeline_buffer: 60, batch_threshold: 2 };
+        v.push(("config:buffer-overflow-in-multi", shards, Some(cfg), None, vec![
+            Step::In(Inp::Multi),
+            Step::In(set("k", "1")),
+            Step::Overflow(b(&"y".repeat(600))),
+            Step::In(Inp::Cmd(Cmd::Get("k".into()))),
+        ]));
+        // --- class 7, history shapes: many transactions on one connection, every way a
+        // transaction can end followed by every other
+        let mut hist: Vec<Step> = vec![Step::Other(Cmd::Set("k".into(), b("0")))];
+        for round in 0..12 {
+            match round % 4 {
+                0 => {
+                    hist.push(Step::In(Inp::Watch(vec!["k".into()])));
+                    hist.push(Step::Other(Cmd::Incr("k".into())));
+                }
+                1 => hist.push(Step::In(Inp::Watch(vec!["n".into()]))),
+                _ => {}
+            }
+            hist.push(Step::In(Inp::Multi));
+            hist.push(Step::In(Inp::Cmd(Cmd::Incr("n".into()))));
+            hist.push(Step::In(Inp::Cmd(Cmd::Append("x".into(), b("a")))));
+            match round % 3 {
+                0 => hist.push(Step::In(Inp::Exec(vec![]))),
+                1 => hist.push(Step::In(Inp::Discard)),
+                _ => {
+                    hist.push(Step::In(Inp::Unk));
+                    hist.push(Step::In(Inp::Exec(vec![])));
+                }
+            }
+        }
+        hist.push(Step::In(Inp::Multi));
+        hist.push(Step::In(Inp::Cmd(Cmd::Get("n".into()))));
+        hist.push(Step::In(Inp::Exec(vec![])));
+        v.push(("history:twelve-transactions", shards, None, None, hist));
+    }
+    v
+}
+
 // ---------------------------------------------------------------- part B: executor level
 
-fn to_command(args: &[Vec<u8>]) -> Command {
+pub(crate) fn to_command(args: &[Vec<u8>]) -> Command {
     let mut buf = BytesMut::from(&frame(args)[..]);
     let v = RespCodec::parse(&mut buf).expect("resp").expect("complete");
     Command::from_resp_zero_copy(&v).expect("command")
@@ -1847,15 +2555,34 @@ fn xcorpus() -> Vec<(Vec<XStep>, Option<(&'static str, &'static str)>)> {
               XStep::Watch(vec!["ab".into()]), c(Cmd::Zadd("ab".into(), 15, b("alice"))), XStep::Multi,
               c(Cmd::Set("w".into(), b("bob"))), c(Cmd::Zadd("ab".into(), 0, b("alice"))), XStep::Exec],
          Some(("C05:x:watch:zset-score-only-change-detected", "$-"))),
+        // machines_differ_on_rewatch_counterexample, executor side: the first snapshot stands
+        (vec![c(Cmd::Set("k".into(), b("0"))), XStep::Watch(vec!["k".into()]), c(Cmd::Set("k".into(), b("1"))), XStep::Watch(vec!["k".into()]), c(Cmd::Set("k".into(), b("0"))), XStep::Multi, XStep::Exec],
+         Some(("C05:machines-differ:rewatch:executor-keeps-first-snapshot", "*0"))),
         // … and in a one-member sorted set
         (vec![c(Cmd::Zadd("ab".into(), 10, b("alice"))), XStep::Watch(vec!["ab".into()]), c(Cmd::Zadd("ab".into(), 11, b("alice"))), XStep::Multi, c(Cmd::Set("w".into(), b("x"))), XStep::Exec],
          Some(("C05:x:watch:zset-score-only-change-detected", "$-"))),
     ]
 }
 
+/// the coverage self-audit against the eleven miss classes (DESIGN.md §4 C05 "Coverage audit")
+const AUDIT: &str = r####"{
+ "1 entry paths": "CLOSED: the match arms of the handler's two transaction blocks, of execute_connection_level, of the executor's queueing prologue, the stub names, the functions of transaction_ops.rs, the files of src/ that mention transaction state and the command loops a MULTI can reach are READ FROM THE SOURCE the binary was built against (c05x::source_scan) and compared with the table of what is driven: a new arm / stub / file / front end fails the check (C05:coverage:…:not-driven / …:gone / scan-failed). Every arm is driven: decision table extracted cell by cell from the real handler (15 reachable state classes × 26 inputs over the 11 input classes; TBL op against the model's table), every connection-level arm and stub inside EXEC vs outside (connection_level_sweep), every Command variant queued and EXECed on a real executor vs outside (executor_variant_sweep, C17's exhaustive all_variants). Front ends: production handler (H1), CommandExecutor, SimulationHarness and RedisServer (one executor for all clients: model Txn.xsharedRun), ReplicatedShardedState::execute = the loop of server_persistent (model Txn.rstep), SimulatedConnection (cannot carry MULTI: probed). OPEN: the ACL check of queued commands (feature `acl` off in the harness build: inside MULTI the handler performs no ACL check at all, neither at queue time nor at EXEC — noted, not driven); Maelstrom adapters (never build a transaction command).",
+ "2 input alphabet": "CLOSED: watched / written keys: empty key, a key that is not UTF-8 on the wire (0xFF → U+FFFD in WATCH, in the data commands and in the store alike), CR LF and blanks inside / before / after a key (next to the same key without them), keys that differ only in case, 300-byte key, multi-byte UTF-8; values: empty, binary incl. CR LF / NUL / 0xFF, 70 000 bytes (beyond the duplex and read buffers), integers at the i64 limit, non-canonical integers; all five value types as watched keys (WATCH matrix); protocol garbage. OPEN: keys that differ only in invalid bytes collapse onto one key (lossy conversion) — the same in every path, C16's subject.",
+ "3 comparisons at equality": "CLOSED: resp_values_equal on every GET-reply pair that can occur (nil / bytes / WRONGTYPE × same / same length / different length: matrix rows same-value-rewrite, same-length-replacement, change-and-change-back, delete-recreate); executor-level Value equality per type incl. score-only changes; queue length 0 / 1 / 2 / 3000; deadline of a watched key 1 ms before / exactly at / 1 ms after the EXEC instant (executor level, evicting and lazy clock); transaction_errors with 0 / 1 / several refused inputs; buffer length just below / at / above min_pipeline_buffer (13 / 14 / 60 with 13- and 14-byte reads).",
+ "4 configuration": "CLOSED: every field of ConnectionConfig is generated input (1 in 4 random sessions + 70 scripted ones): read_buffer_size 1 / 2 / 7 / 13 / 14 / 16 / 64 / 8192 (frames split at every byte), min_pipeline_buffer 0 / 1 / 13 / 14 / 60 / 2^20, batch_threshold 0 / 1 / 2 / 3 / 64, max_buffer_size 256 / 2^20 / default, with transactions sent in one write that begin with and contain runs of GETs and SETs (the shapes the batch collectors and the fast path look for: they must stay out of a transaction); shard counts 1 and 4. OPEN: ACL configuration (feature off), TLS.",
+ "5 capacity thresholds": "CLOSED: queue of 3000 commands filled 64 per write (beyond read buffer, duplex buffer and any Vec growth step), EXEC reply of 3000 results; 300 keys in one WATCH and 200 further WATCH commands (snapshot list of 500 entries, one awaited GET each at EXEC); 70 000-byte value inside a transaction; max_buffer_size crossed between MULTI and EXEC (error reply, connection closed, nothing applied).",
+ "6 fault kinds": "CLOSED: connection closed between MULTI and EXEC (clean, and with half a frame written), closed by the server for buffer overflow, protocol error between MULTI and EXEC and outside (error reply, buffer dropped, transaction NOT flagged — the code as it is, table_protocol_error), run-time failing commands inside EXEC (WRONGTYPE, not an integer, overflow, no such key), refused inputs (unknown command, arity error, channel stub), a reply that never comes (20 s timeout → named outcome). OPEN: a shard actor that dies mid-EXEC (`ERR shard response failed`) — no way to kill an actor from outside.",
+ "7 history shapes": "CLOSED: twelve transactions in a row on one connection ending in every way (EXEC, DISCARD, EXECABORT, WATCH abort) followed by every other; re-WATCH of a watched key; WATCH carried across a failed DISCARD / EXEC outside MULTI; a transaction abandoned by a closed connection followed by a fresh connection; expired-but-unevicted watched key at the executor level (lazy clock: recorded, see assumptions); delete-and-recreate, change-and-change-back, type change; emptied-then-refilled collections.",
+ "8 node-global state": "CLOSED: the shard executors' own transaction state is node-global and is reached by no path of the production handler (source scan: the handler intercepts MULTI / EXEC / DISCARD / WATCH; a queued UNWATCH reaches shard 0 and finds nothing) but IS the state that SimulationHarness / RedisServer / the replicated front end expose (driven; two known findings); the script cache (EVAL / SCRIPT LOAD / EVALSHA inside EXEC vs outside); the ACL manager (ACL SETUSER / DELUSER inside EXEC vs outside); the wall clock (TTL flags after EXEC vs the twin). OPEN: metrics counters (not observable by a client).",
+ "9 observations": "CLOSED: every reply of every input, the typed value of every key of the session after every EXEC / DISCARD / close (member by member), which keys carry a deadline after EXEC vs the sequential twin (C05:exec:ttl-differs-from-sequential), the NEXT state of the machine after every (state, input) pair — observed through probes (queue length, error flag, whether the old and the newly named keys are still watched). OPEN: exact TTL values (wall clock), INFO counters.",
+ "10 finding signatures": "CLOSED (§10.6) and extended: the two new findings are keyed by cause — the shared-executor finding fires only when the result count is exactly own + captured-foreign with the model predicting each reply; the replicated finding only after a MULTI answered `unknown command` with the command answered in the plain; everything else gets its own signature (C05:x:shared:exec-result-count, C05:replicated-frontend:queued-command-changed-the-store, C05:x:sweep:…, C05:exec:sweep:…, C05:close:…, C05:overflow:…, C05:table:…).",
+ "11 harness fragility": "CLOSED: the source tree is found through the harness's own Cargo.toml (never a hard-coded /repo); a scan that does not find its anchors is a violation (scan-failed); every WATCH-matrix cell and every decision-table cell must have been driven exactly once (C05:harness:empty-cell, C05:table:empty-cell, probe-unreadable); a reply that never comes is a named outcome; executor calls under catch_unwind report `crash`; the panics of the sweeps are violations, not skips. OPEN: a panic inside a spawned connection task shows as `?connection closed` (compared, so not silent)."
+}"####;
+
 pub fn run(a: &Args) {
     let mut out = Out::new(&a.out);
     let mut rng = Rng::new(a.seed);
+    out.op(format!("G proto-flags {}", CODE_PROTO_ERROR_FLAGS as u8), "ok".into());
     let rt = tokio::runtime::Builder::new_current_thread().enable_all().build().unwrap();
     rt.block_on(async {
         for (shards, steps) in corpus() {
@@ -1865,6 +2592,44 @@ pub fn run(a: &Args) {
     for (script, expect) in xcorpus() {
         xsession(&mut out, &mut Rng::new(0xC05), Some(script), expect, None);
     }
+    // the source-derived coverage tables, the other front ends, the variant sweeps
+    crate::c05x::source_scan(&mut out);
+    crate::c05x::simulated_connection(&mut out);
+    crate::c05x::connection_level_sweep(&mut out);
+    crate::c05x::executor_variant_sweep(&mut out, &mut Rng::new(0xC05));
+    crate::c05x::executor_lazy_clock_probe(&mut out);
+    crate::c05x::shared_executor(&mut out, &mut rng.fork(), a.n / 8);
+    crate::c05x::replicated_frontend(&mut out, &mut rng.fork(), (a.n / 40).min(2000));
+    // audit corpus: faults, capacity, alphabet, configuration, histories
+    let rt = tokio::runtime::Builder::new_current_thread().enable_all().build().unwrap();
+    rt.block_on(async {
+        for (label, shards, cfg, keys, steps) in audit_corpus() {
+            out.count(&format!("audit-corpus:{}", label));
+            session_full(&mut out, &mut Rng::new(0xC05), Some((shards, steps)), None, cfg, keys).await;
+        }
+    });
+    drop(rt);
+    // the decision table of the connection-level machine, extracted from the real handler cell by
+    // cell (every reachable state class × every input class, several representatives per class)
+    let mut n_cells = 0usize;
+    for shards in [1usize, 4] {
+        let rt = tokio::runtime::Builder::new_current_thread().enable_all().build().unwrap();
+        rt.block_on(async {
+            for st in cell_states() {
+                for (icls, label, inp) in cell_inputs() {
+                    // 4 shards: one representative per input class is enough (the state machine
+                    // does not look at the shard count); 1 shard: all of them
+                    if shards == 4 && !(label == "MULTI" || label == "EXEC" || label == "DISCARD" || label == "UNWATCH" || label == "WATCH k n" || label == "MSET k 1 n 2" || label == "FOO a" || label == "PUBLISH c m" || label == "protocol error" || label == "AUTH x" || label.starts_with("arity error: GET")) {
+                        continue;
+                    }
+                    table_cell(&mut out, shards, &st, icls, &label, &inp).await;
+                    n_cells += 1;
+                }
+            }
+        });
+        drop(rt);
+    }
+    out.extra.insert("decision_table_cells_driven".into(), json!(n_cells));
     // the WATCH matrix: every (level × type of the watched key × modification), each as one
     // scripted session `setup; WATCH w; modification (other client / plain commands); MULTI;
     // SET x 1; EXEC`
@@ -1902,6 +2667,29 @@ pub fn run(a: &Args) {
         steps.push(XStep::Exec);
         xsession(&mut out, &mut Rng::new(0xC05), Some(steps), None, Some(format!("{}:{}", ty, label)));
     }
+    // no silently empty cell: every (level × type × modification) of the WATCH matrix and every
+    // cell of the decision table must have been counted exactly once
+    {
+        let mut missing = Vec::new();
+        for (ty, _, label, _) in matrix() {
+            for level in ["connection-1shard", "connection-4shard", "executor"] {
+                let prefix = format!("watchmatrix:{}:{}:{}:", level, ty, label);
+                let n: u64 = out.dist.iter().filter(|(k, _)| k.starts_with(&prefix)).map(|(_, v)| *v).sum();
+                if n != 1 {
+                    missing.push(format!("{} ({} outcomes)", prefix, n));
+                }
+            }
+        }
+        let want_cells = cell_states().len() * cell_inputs().len();
+        let got_1shard = out.extra.get("decision_table_extracted_from_the_real_handler:1shard").and_then(|v| v.as_object()).map(|m| m.len()).unwrap_or(0);
+        if got_1shard != want_cells {
+            missing.push(format!("decision table: {} of {} cells extracted on 1 shard", got_1shard, want_cells));
+        }
+        if !missing.is_empty() {
+            out.violation("C05:harness:empty-cell", &format!("cells of the WATCH matrix / decision table that were not driven exactly once: {:?}", missing), json!({"cells": missing}));
+        }
+    }
+    out.extra.insert("audit".into(), serde_json::from_str(AUDIT).expect("audit json"));
     // a fresh runtime every 200 sessions: the shard actors of finished sessions go away with it
     let mut done = 0;
     while done < a.n {
